@@ -208,10 +208,10 @@ theorem counters_never_exceed (s : Script) (hraw : c.saltSize + (s.chunks.map (c
         · simp [hrep] at hc; omega
         · simp [hrep] at hc; omega
 
-/-- **wiring**: opened once before handling, closed once after handling on every path, authenticated
-    reported once and only after the authentication branch (generated facts). -/
-theorem wiring : Gen.Wiring.tcpOpenedOnceBeforeHandle = true ∧ Gen.Wiring.tcpClosedOnceAfterHandleConnection = true ∧
-    Gen.Wiring.tcpAddAuthenticatedOnlyAfterAuth = true := by decide
+/-- **wiring**: opened once before handling, closed once after handling on every path (generated facts).  That
+    authentication is reported once and only after the authentication branch used to be a third, syntactic fact; it
+    is now proved about the translated `handleConnection` (`code_authentication_and_probe_reports` below). -/
+theorem wiring : Gen.Wiring.tcpOpenedOnceBeforeHandle = true ∧ Gen.Wiring.tcpClosedOnceAfterHandleConnection = true := by decide
 
 
 /-! ### the counting wrapper (metrics.MeasureConn), tied by the `mconn` campaign -/
